@@ -130,6 +130,26 @@ def check(ctx, rep):
            'width = sprite.width // self.width_factor' in t6p and 'width *= self.width_factor' in t6u, '', FB)
     put = ctx.fn(G + ':Graphics.put_')
     get = ctx.fn(G + ':Graphics.get_')
+    # GET of w logical pixels covers width_factor * w physical pixels (the factor is 2 only in Tandy SCREEN 6):
+    # right edge = x0 + factor * (x1 - x0 + 1) - 1, with any helper local substituted
+    import copy
+    from ..algebra import lin as _lin
+    defs = {}
+    right = None
+    for a_ in get.body:
+        if isinstance(a_, ast.Assign) and isinstance(a_.targets[0], ast.Name):
+            v = copy.deepcopy(a_.value)
+
+            class _S(ast.NodeTransformer):
+                def visit_Name(self, node):
+                    return copy.deepcopy(defs[node.id]) if node.id in defs and node.id not in ('x0', 'x1', 'y0', 'y1') else node
+            v = _S().visit(v)
+            if a_.targets[0].id == 'x1' and 'width_factor' in norm(a_.value):
+                right = v
+            defs[a_.targets[0].id] = v
+    want = _lin(ast.parse('x0 + self._mode.sprite_builder.width_factor * (x1 - x0 + 1) - 1', mode='eval').body)
+    rep.ob('get.width-factor', 'GET: right edge = x0 + width_factor * (requested width) - 1', right is not None and _lin(right) == want,
+           'right edge = %s' % (norm(right) if right is not None else 'not found'), ctx.where(get))
     fl = ctx.flow(put)
     ops = {}
     for a_ in own_nodes(put):
@@ -171,6 +191,17 @@ def variants(ctx):
            in_fn('PlanedSpriteBuilder.unpack', lambda fn: mu.replace_expr(fn, mu.text_is('allplanes[_plane::self._number_planes, :] << _plane'),
                                                                          'allplanes[_plane::self._number_planes, :] << self._number_planes - 1 - _plane')), expect='sprite.plane'),
         Va('put-xor-is-or', 'break', G, in_fn('Graphics.put_', lambda fn: mu.replace_expr(fn, mu.text_is('operator.ixor'), 'operator.ior')), expect='put.operations'),
+        Va('get-width-factor-misapplied', 'break', G, in_fn('Graphics.get_', _fold_width), expect='get.width-factor'),
         Va('get-open-rectangle', 'break', G, in_fn('Graphics.get_', lambda fn: mu.replace_expr(fn, mu.text_is('self.graph_view[y0:y1 + 1, x0:x1 + 1]'), 'self.graph_view[y0:y1, x0:x1]')), expect='put.same'),
         Va('neutral', 'neutral', G, in_fn('Graphics._draw_line', lambda fn: mu.rename_local(fn, 'line_error', 'err'))),
     ]
+
+
+def _fold_width(fn):
+    w = [a for a in fn.body if isinstance(a, ast.Assign) and norm(a.targets[0]) == 'width']
+    x = [a for a in fn.body if isinstance(a, ast.Assign) and norm(a.targets[0]) == 'x1' and 'width_factor' in norm(a.value)]
+    if len(w) != 1 or len(x) != 1:
+        return False
+    fn.body.remove(w[0])
+    x[0].value = ast.parse('x0 + self._mode.sprite_builder.width_factor * (x1 - x0)', mode='eval').body
+    return True
